@@ -32,18 +32,24 @@ type killedHandler struct {
 // handleChildDeath 处理子 Actor 死亡
 func (h *killedHandler) handleChildDeath() {
 	if !h.message.Ref.Equals(h.ctx.ref) {
+		unlockChildren := h.ctx.lockChildren()
 		verifhook.At("ctx.children.w", h.ctx, nil)
 		delete(h.ctx.children, h.message.Ref.GetPath())
+		childrenCount := len(h.ctx.children)
+		unlockChildren()
 		h.ctx.executeBehaviorWithRecovery(h.behavior)
-		h.ctx.Logger().Debug("child death", log.Int("children_count", len(h.ctx.children)), log.String("ref", h.ctx.ref.GetPath()), log.String("child", h.message.Ref.GetPath()))
+		h.ctx.Logger().Debug("child death", log.Int("children_count", childrenCount), log.String("ref", h.ctx.ref.GetPath()), log.String("child", h.message.Ref.GetPath()))
 	}
 }
 
 // checkAndMarkKilled 检查并标记为 killed
 func (h *killedHandler) checkAndMarkKilled() {
 	// 如果还有子 Actor，则不处理自身死亡
+	unlockChildren := h.ctx.lockChildren()
 	verifhook.At("ctx.children.r", h.ctx, nil)
-	if len(h.ctx.children) != 0 || !atomic.CompareAndSwapInt32(&h.ctx.state, killing, killed) {
+	childrenCount := len(h.ctx.children)
+	unlockChildren()
+	if childrenCount != 0 || !atomic.CompareAndSwapInt32(&h.ctx.state, killing, killed) {
 		h.shouldContinue = false
 		return
 	}
